@@ -158,6 +158,8 @@ def run_single(case, R, es=None):
     # construct -> exponents / raw view
     expect(R, "construct", lab, lambda: p, eq_model(m), tags, sub)
     expect(R, "exponents", lab, lambda: sorted(int(x) for x in p.exponents[:, 0]), lambda got: got == sorted(set(es)) or f"{got[:5]}", tags, sub)
+    from .C03 import attr_recall
+    expect(R, "accessors after the caller wrote to their results", lab, lambda: attr_recall(p, m), lambda got: (not got) or got[0], tags, sub)
     # raw structured view and back
     for fname, f in (("polynomial(raw)", lambda: numpoly.polynomial(numpy.array(raw_view(p)), names=p.names)),
                      ("aspolynomial(values)", lambda: numpoly.aspolynomial(p.values, names=p.names)),
